@@ -102,6 +102,7 @@ func (e *Engine) DetachHandler(prefix enc.Name) error {
 
 func (e *Engine) onPacket(reader enc.ParseReader) error {
 	var nackReason uint64 = spec.NackReasonNone
+	var isNack bool = false
 	var pitToken []byte = nil
 	var incomingFaceId *uint64 = nil
 	var raw enc.Wire = nil
@@ -143,6 +144,9 @@ func (e *Engine) onPacket(reader enc.ParseReader) error {
 		}
 		// Set parameters
 		if lpPkt.Nack != nil {
+			// The Nack header makes the packet a Nack, whatever the reason code:
+			// NackReasonNone (0) is a legal reason.
+			isNack = true
 			nackReason = lpPkt.Nack.Reason
 		}
 		pitToken = lpPkt.PitToken
@@ -151,7 +155,7 @@ func (e *Engine) onPacket(reader enc.ParseReader) error {
 		raw = reader.Range(0, reader.Length())
 	}
 	// Now pkt is either Data or Interest (including Nack).
-	if nackReason != spec.NackReasonNone {
+	if isNack {
 		if pkt.Interest == nil {
 			e.log.Errorf("Received nack for an Data")
 			return nil
